@@ -64,6 +64,15 @@ package note
 //@   let KNOWN Verifiers = known @before loop 1
 //@   ensures [C07] verified_over_text: result1 == nil ==> result0 != nil && len(result0.Sigs) >= 1 && ISTEXTOF(result0.Text, string(msg))
 //@   ensures [C07] every_listed_signature_checked: result1 == nil ==> (forall k int :: 0 <= k && k < len(result0.Sigs) ==> SIGOK(KNOWN, result0.Sigs[k], result0.Text))
+//@   # why opening fails, at the return statements concerned (in source order): only more than 100 signature lines are
+//@   # too many; an error of the verifier lookup other than "unknown" is passed on; a known key whose verifier rejects
+//@   # the signature over the text; no verified signature at all
+//@   ensures site 5 [C07] fails_for_too_many_only_above_100: numSig > 100
+//@   ensures site 6 [C07] lookup_error_passed_on: result1 == err && err != nil && typeof(err) != typeid("*UnknownVerifierError")
+//@   ensures site 8 [C07] known_key_bad_signature: err == nil && v != nil && !VERIFIES(v, string(text), string(sig)) && typeof(result1) == typeid("*InvalidSignatureError")
+//@   ensures site 9 [C07] no_verified_signature: len(n.Sigs) == 0 && typeof(result1) == typeid("*UnverifiedNoteError")
+//@   # the signature block is what follows the LAST blank line: note text may itself contain blank lines
+//@   ensures [C07] text_ends_at_last_blank_line: result1 == nil ==> len(result0.Text) == strings.LastIndex(string(msg), "\n\n") + 1
 //@   ensures [C07, C01, C13] signed_text: result1 == nil ==> (known != nil ==> SIGOK(known, result0.Sigs[0], result0.Text) && SIGNEDTEXT(known, string(msg), result0.Text))
 //@   # a signature is listed as unverified only when its key is unknown (any other lookup error makes Open fail)
 //@   ensures [C07] unverified_means_unknown: result1 == nil ==> (forall k int :: 0 <= k && k < len(result0.UnverifiedSigs) ==> typeof(KE(KNOWN, result0.UnverifiedSigs[k].Name, result0.UnverifiedSigs[k].Hash)) == typeid("*UnknownVerifierError"))
@@ -78,6 +87,7 @@ package note
 //@     invariant n.Text == string(text)
 //@     invariant len(text) >= 1 && len(text) + 1 <= len(msg) && msg[len(text)-1] == '\n' && msg[len(text)] == '\n'
 //@     invariant ISTEXTOF(n.Text, string(msg))
+//@     invariant len(text) == strings.LastIndex(string(msg), "\n\n") + 1
 //@     invariant forall k int {n.Sigs[k]} :: 0 <= k && k < len(n.Sigs) ==> SIGOK(known, n.Sigs[k], n.Text)
 //@     invariant forall k int {n.UnverifiedSigs[k]} :: 0 <= k && k < len(n.UnverifiedSigs) ==> typeof(KE(known, n.UnverifiedSigs[k].Name, n.UnverifiedSigs[k].Hash)) == typeid("*UnknownVerifierError")
 //@     # a key is marked as seen only when a verified signature by exactly that (name, key hash) is listed, and the
@@ -95,19 +105,33 @@ package note
 //@   pure
 //@ iface Signer.Sign(s Signer, msg []byte) (sig []byte, err error)
 //@   allocates
+//@ # the first m signatures of list whose key is not in hv have their line in w
+//@ spec macro KEPTLINES(list []Signature, m int, hv "map[nameHash]bool", w string) bool =
+//@     forall k int {list[k]} :: 0 <= k && k < m && !(has(hv, mk("nameHash", list[k].Name, list[k].Hash)) && hv[mk("nameHash", list[k].Name, list[k].Hash)]) ==> len(SIGLINE(list[k])) <= 4611686018427387904 && strings.Contains(w, SIGLINE(list[k]))
+//@ # the line that carries signature s in a signed message
+//@ spec func SIGLINE(s Signature) string = "\u2014 " + s.Name + " " + s.Base64 + "\n"
 //@ func Sign
 //@   requires n != nil && (forall k int :: 0 <= k && k < len(signers) ==> signers[k] != nil)
 //@   modifies ghost.WRITTEN, []byte
+//@   let HAVE "map[nameHash]bool" = have @after loop 0
 //@   call Signer.Sign requires [C07] signs_exact_text: string(arg_msg) == n.Text
 //@   ensures [C07] text_then_blank_line: result1 == nil ==> strings.HasSuffix(n.Text, "\n") && strings.HasPrefix(string(result0), n.Text + "\n")
+//@   # every existing signature whose key is not among the new signers' keys (HAVE) is re-emitted as its own line
+//@   ensures [C07] old_signatures_kept: result1 == nil ==> (forall k int {n.Sigs[k]} :: 0 <= k && k < len(n.Sigs) && !(has(HAVE, mk("nameHash", n.Sigs[k].Name, n.Sigs[k].Hash)) && HAVE[mk("nameHash", n.Sigs[k].Name, n.Sigs[k].Hash)]) ==> strings.Contains(string(result0), SIGLINE(n.Sigs[k])))
+//@   ensures [C07] old_unverified_signatures_kept: result1 == nil ==> (forall k int {n.UnverifiedSigs[k]} :: 0 <= k && k < len(n.UnverifiedSigs) && !(has(HAVE, mk("nameHash", n.UnverifiedSigs[k].Name, n.UnverifiedSigs[k].Hash)) && HAVE[mk("nameHash", n.UnverifiedSigs[k].Name, n.UnverifiedSigs[k].Hash)]) ==> strings.Contains(string(result0), SIGLINE(n.UnverifiedSigs[k])))
 //@   loop 0:
 //@     invariant 0 - 1 <= @idx && @idx < len(signers) && have != nil && WRITTEN[&buf] == n.Text
+//@     invariant [C07] new_signers_recorded: forall j int :: 0 <= j && j <= @idx ==> has(have, mk("nameHash", signers[j].Name(), signers[j].KeyHash())) && have[mk("nameHash", signers[j].Name(), signers[j].KeyHash())]
 //@     decreases len(signers) - @idx
 //@   loop 1:
-//@     invariant 0 - 1 <= @idx && @idx < 2 && have != nil
+//@     invariant 0 - 1 <= @idx && @idx < 2 && have != nil && have == HAVE
 //@     invariant len(WRITTEN[&buf]) >= len(n.Text) + 1 && WRITTEN[&buf][:len(n.Text)+1] == n.Text + "\n"
+//@     invariant @idx >= 0 ==> KEPTLINES(n.Sigs, len(n.Sigs), HAVE, WRITTEN[&buf])
+//@     invariant @idx >= 1 ==> KEPTLINES(n.UnverifiedSigs, len(n.UnverifiedSigs), HAVE, WRITTEN[&buf])
 //@   loop 2:
-//@     invariant 0 - 1 <= @idx && @idx < len(list) && have != nil
+//@     invariant 0 - 1 <= @idx && @idx < len(list) && have != nil && have == HAVE
 //@     invariant len(WRITTEN[&buf]) >= len(n.Text) + 1 && WRITTEN[&buf][:len(n.Text)+1] == n.Text + "\n"
-//@   uses cat_prefix prefix_ext
+//@     invariant list == n.Sigs || (list == n.UnverifiedSigs && KEPTLINES(n.Sigs, len(n.Sigs), HAVE, WRITTEN[&buf]))
+//@     invariant KEPTLINES(list, @idx + 1, HAVE, WRITTEN[&buf])
+//@   uses cat_prefix prefix_ext cat5 contains_appended contains_mono
 //@   props C07
